@@ -244,14 +244,15 @@ def finish(ctx: Ctx) -> int:
     os.makedirs(EVIDENCE_DIR, exist_ok=True)
     lines = []
     replay_paths = []
+    replay_dir = REPLAY_DIR if os.environ.get('VERIF_NO_EVIDENCE') != '1' else os.path.join('/tmp', 'vf_replays_scratch')
     if violations:
-        os.makedirs(os.path.join(REPLAY_DIR, ctx.prop), exist_ok=True)
+        os.makedirs(os.path.join(replay_dir, ctx.prop), exist_ok=True)
         seen = set()
         for w in violations:
             if w['key'] in seen:
                 continue
             seen.add(w['key'])
-            path = os.path.join(REPLAY_DIR, ctx.prop, f'{h(w["key"])}.json')
+            path = os.path.join(replay_dir, ctx.prop, f'{h(w["key"])}.json')
             with open(path, 'w') as f:
                 json.dump({'property': ctx.prop, 'seed': ctx.seed, 'tier': ctx.tier, **w,
                            'occurrences': ctx.witness_counts.get(w['key'], 1)}, f, indent=1)
